@@ -174,7 +174,14 @@ def run_ts_case(fi, oi, opi, form):
         if got != exp:
             return False
     # a datetime-valued filter behaves the same
-    return _check_filter(Filter("modified", op, inst(finst)), ind) == exp
+    if _check_filter(Filter("modified", op, inst(finst)), ind) != exp:
+        return False
+    # objects of unregistered custom types are kept as dictionaries: their timestamps are strings, and must still compare as instants
+    if K.open("C12-dict-kept-timestamp-strings"):
+        return True
+    custom = {"type": "x-acme-widget", "spec_version": "2.1", "id": "x-acme-widget--311b2d2d-f010-4473-83ec-1edf84858f4c",
+              "created": stix2.utils.format_datetime(inst(oi)), "modified": stix2.utils.format_datetime(inst(oi))}
+    return bool(MemorySource([custom], allow_custom=True).query([Filter("modified", op, ftext)])) == exp
 
 
 # ---- filesystem search optimisation: sound and exact
